@@ -20,11 +20,14 @@ import pypika_tortoise as P
 from pypika_tortoise import functions as fn, analytics as an, terms as T
 from pypika_tortoise.dialects import MSSQLQuery, MySQLQuery, OracleQuery, PostgreSQLQuery, SQLLiteQuery
 from props.c12 import operand_slots
+from dump import Dumper
 
 LEVEL = "proof"
-THEOREMS = ["C16_replace_complete", "C16_every_class_constructible", "C16_nonvacuous"]
+THEOREMS = ["C16_replace_complete", "C16_every_class_constructible", "C16_nonvacuous", "C16_nothing_else", "C16_every_reference", "C16_idempotent",
+            "C16_statements", "C16_spec_nonvacuous"]
 HEADER = "From PT Require Import Base.Str Base.Codes.\nOpen Scope N_scope.\n"
 FAIL, SEEN = [], [0]
+REP_CAP = [10]
 
 
 def ns(ctx):
@@ -73,8 +76,20 @@ def compare(label, build, mk_old, mk_new, ctx, corr, mk_third=lambda: P.Table("t
         FAIL.append({"label": label, "kind": "reference-left-or-wrong", "got": got, "expected": exp})
     elif before != after:
         FAIL.append({"label": label, "kind": "receiver-changed", "before": before, "after": after})
-    elif corr is not None and len(corr) < 4:
-        corr.append((r, [("Query", ns(ctx), "inline")]))
+    elif corr is not None:
+        if sum(1 for e in corr if len(e) == 2) < 4:
+            corr.append((r, [("Query", ns(ctx), "inline")]))
+        # the tie of the SPECIFICATION (Ref.Replace.rep: one structural map over the object language) to the 29 replace_table methods: the tree of the
+        # receiver, mapped by rep old new IN COQ, must render as the implementation renders the object replace_table returned
+        if (isinstance(old, P.Table) and isinstance(new, P.Table) and new._for is None and new._for_portion is None
+                and sum(1 for e in corr if len(e) == 4) < REP_CAP[0]):
+            d = Dumper()
+            try:
+                o_txt, n_txt = d.tref(old), d.tref(new)
+            except Exception:  # noqa
+                return
+            corr.append((r, [("Query", ns(ctx), "inline"), ("Query", ctx, "param")], a,
+                         (lambda text, o_txt=o_txt, n_txt=n_txt: "(rep %s %s %s)" % (o_txt, n_txt, text))))
 
 
 def statements(qc):
@@ -120,6 +135,7 @@ def statements(qc):
 def cases(run, rng):
     del FAIL[:]
     SEEN[0] = 0
+    REP_CAP[0] = 10 if run.tier == "quick" else 40
     dctx = P.Query.SQL_CONTEXT
     pairs = table_pairs()
     # every live Term subclass, itself and in every operand slot
@@ -157,7 +173,7 @@ def cases(run, rng):
                     ctx, corr, mk_third=lambda: P.Table("old", alias="mgr"))
             compare("stmt:%s/%s/self-join-aliased" % (QNAMES[qc], name), lambda tb, third, name=name: S(tb, third)[name](), lambda: P.Table("old", alias="mgr"),
                     lambda: P.Table("new"), ctx, corr, mk_third=lambda: P.Table("old"))
-            yield {"label": "stmt:%s" % name, "corr": [(o, [(QNAMES[qc], c, m) for _, c, m in cm]) for o, cm in corr], "expr": "1", "known": None, "describe": {}}
+            yield {"label": "stmt:%s" % name, "corr": [(e[0], [(QNAMES[qc], c, m) for _, c, m in e[1]]) + tuple(e[2:]) for e in corr], "expr": "1", "known": None, "describe": {}}
 
 
 class LazyViolations:
@@ -173,7 +189,8 @@ def check(run: core.Run):
     rng = random.Random(run.seed)
     stmtprop.run_statement_property(
         run, prop="C16", propfile="Props/C16.v", module="Props.C16", theorems=THEOREMS, header=HEADER, cases=cases(run, rng),
-        what="the replace_table statement", extra_violations=LazyViolations(), extra_cov=lazy_cov, extra_targets=["Gen/Children.v"],
+        what="the replace_table statement", extra_violations=LazyViolations(), extra_cov=lazy_cov, extra_targets=["Gen/Children.v", "Ref/Replace.v", "Proofs/ReplaceLaws.v"],
+        corr_import="Ref.Replace",
         rule="for EVERY live Term subclass (reflection; itself and placed in each of 32 operand slots) and for statements of every kind (select with every clause, "
              "JOIN USING, sub-queries in FROM/IN, CTE, UPDATE..SET..FROM, INSERT..SELECT / VALUES, DELETE, set operation, window / CASE / unary minus / BETWEEN, star, "
              "upsert, RETURNING, DISTINCT ON, PREWHERE) x 6 classes x table pairs (plain, aliased new, aliased old, schema-qualified, a table and its temporal form both ways, same name in another schema, None): the object built over the old "
